@@ -3,6 +3,7 @@ package c13
 import (
 	"encoding/json"
 	"fmt"
+	"strings"
 
 	"go.amzn.com/verifh/hx"
 	"go.amzn.com/verifh/stack"
@@ -126,6 +127,21 @@ func (s genScen) run(c *hx.Ctx) *hx.ScenarioResult {
 			if k.Status != 403 || m.ErrorType != "Extension.UnknownExtensionIdentifier" {
 				failf("1", "old-identifier-not-refused:"+s.op, "the %s call with an identifier of the earlier generation got status %d %s, expected 403 Extension.UnknownExtensionIdentifier", s.op, k.Status, m.ErrorType)
 			}
+		}
+		// registration data returned equals what the platform was initialised with - in every generation
+		firstAnswer := ""
+		for _, k := range w.Calls {
+			if k.Kind != "register" || k.Answered < 0 || k.Status != 200 {
+				continue
+			}
+			if firstAnswer == "" {
+				firstAnswer = string(k.Body)
+			} else if string(k.Body) != firstAnswer {
+				failf("3", "registration-data-differs-after-reset", "the extension of generation %d got the registration answer %q, the one of generation 1 got %q", k.Gen, k.Body, firstAnswer)
+			}
+		}
+		if !strings.Contains(firstAnswer, `"functionName":"test_function"`) {
+			failf("3", "registration-data", "registration answer %q does not carry the function name the emulator was initialised with", firstAnswer)
 		}
 		n := len(w.Invokes)
 		for i, want := range [][]byte{echoN(1), echoN(2)} {
